@@ -120,9 +120,11 @@ void ThreadPoolExecutor::stop() noexcept {
     return;
   }
   _running.store(false, ::std::memory_order_release);
+  BABYLON_VERIF_POINT("exec:stop_flag_cleared");
   if (_balance_thread.joinable()) {
     _balance_thread.join();
   }
+  BABYLON_VERIF_POINT("exec:stop_before_markers");
   for (size_t i = 0; i < _threads.size(); ++i) {
     _global_task_queue.push<true, false, true>(
         Task {.type = TaskType::STOP, .function {}});
@@ -156,6 +158,7 @@ void ThreadPoolExecutor::keep_execute() noexcept {
     Task task;
     if (!local_queue.try_pop<true, false>(task)) {
       bool steal_success = false;
+      BABYLON_VERIF_POINT("exec:local_empty");
       if (_enable_work_stealing) {
         _local_task_queues.for_each([&](TaskQueue* iter, TaskQueue* end) {
           if (steal_success) {
@@ -164,6 +167,7 @@ void ThreadPoolExecutor::keep_execute() noexcept {
           while (iter != end) {
             auto& queue = *iter++;
             steal_success = queue.try_pop<true, false>(task);
+            BABYLON_VERIF_POINT("exec:steal_tried");
             if (steal_success) {
               return;
             }
@@ -171,6 +175,7 @@ void ThreadPoolExecutor::keep_execute() noexcept {
         });
       }
       if (!steal_success) {
+        BABYLON_VERIF_POINT("exec:before_global_pop");
         _global_task_queue.pop<true, true, false>(task);
       }
     }
@@ -179,6 +184,7 @@ void ThreadPoolExecutor::keep_execute() noexcept {
         task.function();
       } break;
       case TaskType::STOP: {
+        BABYLON_VERIF_POINT("exec:stop_consumed");
         return;
       }
       case TaskType::WAKEUP: {
@@ -199,6 +205,7 @@ void ThreadPoolExecutor::keep_balance() noexcept {
         bool success = true;
         while (success) {
           success = queue.try_pop<true, false>([&](Task& task) {
+            BABYLON_VERIF_POINT("exec:balance_moved");
             enqueue_task(::std::move(task));
           });
         }
@@ -212,11 +219,13 @@ int ThreadPoolExecutor::enqueue_task(Task&& task) noexcept {
     if (_local_capacity > 0) {
       auto& local_queue = _local_task_queues.local();
       if (local_queue.size() < _local_capacity) {
+        BABYLON_VERIF_POINT("exec:local_before_push");
         local_queue.push<false, false, false>(::std::move(task));
         return 0;
       }
     }
   }
+  BABYLON_VERIF_POINT("exec:global_before_push");
   _global_task_queue.push<true, false, true>(::std::move(task));
   return 0;
 }
